@@ -1,9 +1,9 @@
 SPECIFICATION GenSpec
 CONSTANTS
-  CSs = {1, 2, 3}
-  NPushes = {0, 1, 2, 3, 4, 5, 6, 7}
-  Concs = {TRUE}
-  FaultKinds = {"none"}
+  CSs = {1, 2}
+  NPushes = {1, 2, 3, 4, 5}
+  Concs = {TRUE, FALSE}
+  FaultKinds = {"tempfile", "encode", "sync"}
   SetErrOnlyIfNonNil = TRUE
   FinaliseWaits = TRUE
 INVARIANTS EmitSchedule
